@@ -88,6 +88,66 @@ Proof.
   rewrite forallb_forall in H. intros m Hm. apply fn_matches_spec. apply H. exact Hm.
 Qed.
 
+(* From here on every lemma is GENERIC in the IRI comparison (builder b47; see Proofs/EqualP.v): inside the section the
+   short names stand for the generic definitions (modules EqG, EtG, ItG, ItB) applied to [ideq]; after the module the
+   same names are re-established for iri_eqb by instantiation. *)
+Module ItGP.
+Section IdRel.
+  Variable ideq : bytes -> bytes -> bool -> bool.
+  Local Notation cmp_one := (EqG.cmp_one ideq).
+  Local Notation all_cmp := (EqG.all_cmp ideq).
+  Local Notation object_equals := (EqG.object_equals ideq).
+  Local Notation intransitive_equals := (EqG.intransitive_equals ideq).
+  Local Notation activity_equals := (EqG.activity_equals ideq).
+  Local Notation actor_equals := (EqG.actor_equals ideq).
+  Local Notation collection_equals := (EqG.collection_equals ideq).
+  Local Notation page_equals := (EqG.page_equals ideq).
+  Local Notation ordered_equals := (EqG.ordered_equals ideq).
+  Local Notation opage_equals := (EqG.opage_equals ideq).
+  Local Notation link_equals := (EqG.link_equals ideq).
+  Local Notation equals_method := (EqG.equals_method ideq).
+  Local Notation object_branch := (EqG.object_branch ideq).
+  Local Notation items_equal_body := (EqG.items_equal_body ideq).
+  Local Notation items_equal_c := (EqG.items_equal_c ideq).
+  Local Notation items_equal := (EqG.items_equal ideq).
+  Local Notation items_equal_pinned := (EqG.items_equal_pinned ideq).
+  Local Notation iris_contains := (EqG.iris_contains ideq).
+  Local Notation ieq := (EqGI.ieq ideq).
+  Local Notation guard_fires := (EtG.guard_fires ideq).
+  Local Notation run_guards := (EtG.run_guards ideq).
+  Local Notation run_csteps := (EtG.run_csteps ideq).
+  Local Notation interp_with := (EtG.interp_with ideq).
+  Local Notation interp_method := (EtG.interp_method ideq).
+  Local Notation equals_method_t := (EtG.equals_method_t ideq).
+  Local Notation ev_b := (ItG.ev_b ideq).
+  Local Notation exec := (ItG.exec ideq).
+  Local Notation run_fn := (ItG.run_fn ideq).
+  Local Notation run_named := (ItG.run_named ideq).
+  Local Notation sem_swap := (ItG.sem_swap ideq).
+  Local Notation sem_contains := (ItG.sem_contains ideq).
+  Local Notation meth_contains := (ItG.meth_contains ideq).
+  Local Notation env_contains := (ItG.env_contains ideq).
+  Local Notation sem_iceq := (ItG.sem_iceq ideq).
+  Local Notation func_top := (ItG.func_top ideq).
+  Local Notation meth_top := (ItG.meth_top ideq).
+  Local Notation env_top := (ItG.env_top ideq).
+  Local Notation sem_items_equal := (ItG.sem_items_equal ideq).
+  Local Notation sem_iris_contains := (ItG.sem_iris_contains ideq).
+  Local Notation sem_nlv_equals := (ItG.sem_nlv_equals ideq).
+  Local Notation items_equal_t := (ItG.items_equal_t ideq).
+  Local Notation object_equals_ext := (EqGP.object_equals_ext ideq).
+  Local Notation intransitive_equals_ext := (EqGP.intransitive_equals_ext ideq).
+  Local Notation activity_equals_ext := (EqGP.activity_equals_ext ideq).
+  Local Notation actor_equals_ext := (EqGP.actor_equals_ext ideq).
+  Local Notation collection_equals_ext := (EqGP.collection_equals_ext ideq).
+  Local Notation page_equals_ext := (EqGP.page_equals_ext ideq).
+  Local Notation ordered_equals_ext := (EqGP.ordered_equals_ext ideq).
+  Local Notation opage_equals_ext := (EqGP.opage_equals_ext ideq).
+  Local Notation link_equals_ext := (EqGP.link_equals_ext ideq).
+  Local Notation equals_table_tie := (EtGP.equals_table_tie ideq).
+  Local Notation comp_sem := (ItB.comp_sem ideq).
+  Local Notation raw_block_sem := (ItB.raw_block_sem ideq).
+
 (* ---------------------------------------------------------------- symbolic execution of a body, one statement at a time *)
 Section Steps.
   Variable E : callenv.
@@ -466,17 +526,17 @@ Section IrisContains.
     body = SSeq (SIf (BIriEquals (SLinkOf (B "r")) (SIriVar (B "iri")) false) (SSeq (SReturn (BConst true)) SSkip) SSkip) SSkip ->
     forall t, exists t',
     for_loop (fun x s' => exec E body (bind (B "iri") x s')) (map (fun x => VItem (IIri false x)) l) (ist I r t)
-    = Ok (if existsb (fun iri => iri_eqb (lnk r) iri false) l then SgRet true else SgNormal (ist I r t')).
+    = Ok (if existsb (fun iri => ideq (lnk r) iri false) l then SgRet true else SgNormal (ist I r t')).
   Proof.
     intros Hn ->. induction l as [|x l IH]; intro t.
     - exists t. reflexivity.
     - cbn [map existsb]. rewrite for_loop_cons.
       assert (exec E (SSeq (SIf (BIriEquals (SLinkOf (B "r")) (SIriVar (B "iri")) false) (SSeq (SReturn (BConst true)) SSkip) SSkip) SSkip)
                 (bind (B "iri") (VItem (IIri false x)) (ist I r t))
-              = Ok (if iri_eqb (lnk r) x false then SgRet true else SgNormal (ist I r (Some (VItem (IIri false x)))))) as ->.
+              = Ok (if ideq (lnk r) x false then SgRet true else SgNormal (ist I r (Some (VItem (IIri false x)))))) as ->.
       { unfold ist. destruct t; cbn [app]; sx; rewrite (get_link_nn r Hn); sx.
-        all: destruct (iri_eqb (lnk r) x false); sx; reflexivity. }
-      destruct (iri_eqb (lnk r) x false); cbn [obind orb]; [exists t; reflexivity|]. apply IH.
+        all: destruct (ideq (lnk r) x false); sx; reflexivity. }
+      destruct (ideq (lnk r) x false); cbn [obind orb]; [exists t; reflexivity|]. apply IH.
   Qed.
 
   Lemma iris_contains_model lo r :
@@ -487,7 +547,7 @@ Section IrisContains.
     destruct (is_nil r) eqn:Hn; sx; [reflexivity|].
     destruct (iris_loop env_none (VItem (IIris false (Some (x :: l)))) r _ (x :: l) Hn eq_refl None) as [t' Hl].
     use_loop Hl. clear Hl.
-    destruct (existsb (fun iri => iri_eqb (lnk r) iri false) (x :: l)); sx; reflexivity.
+    destruct (existsb (fun iri => ideq (lnk r) iri false) (x :: l)); sx; reflexivity.
   Qed.
 End IrisContains.
 
@@ -655,3 +715,58 @@ Section TableTie.
     - intros k fs x. rewrite (equals_table_tie _ eqtbl others He). apply equals_method_pw; [reflexivity|exact IH].
   Qed.
 End TableTie.
+End IdRel.
+End ItGP.
+
+Local Ltac inst L := first [ exact (L iri_eqb) | exact L ].
+Definition exec_seq := ltac:(inst ItGP.exec_seq).
+Definition exec_if := ltac:(inst ItGP.exec_if).
+Definition exec_ret := ltac:(inst ItGP.exec_ret).
+Definition exec_retnil := ltac:(inst ItGP.exec_retnil).
+Definition exec_skip := ltac:(inst ItGP.exec_skip).
+Definition exec_break := ltac:(inst ItGP.exec_break).
+Definition exec_decltype := ltac:(inst ItGP.exec_decltype).
+Definition exec_declbool := ltac:(inst ItGP.exec_declbool).
+Definition exec_setbool := ltac:(inst ItGP.exec_setbool).
+Definition exec_for := ltac:(inst ItGP.exec_for).
+Definition exec_on := ltac:(inst ItGP.exec_on).
+Definition for_loop_nil := ltac:(inst ItGP.for_loop_nil).
+Definition for_loop_cons := ltac:(inst ItGP.for_loop_cons).
+Definition get_type_nn := ltac:(inst ItGP.get_type_nn).
+Definition get_link_nn := ltac:(inst ItGP.get_link_nn).
+Definition type_list_object := ltac:(inst ItGP.type_list_object).
+Definition type_list_activity := ltac:(inst ItGP.type_list_activity).
+Definition type_list_actor := ltac:(inst ItGP.type_list_actor).
+Definition swap_model := ltac:(inst ItGP.swap_model).
+Definition contains_loop := ltac:(inst ItGP.contains_loop).
+Definition contains_model := ltac:(inst ItGP.contains_model).
+Definition is_collection_call_nn := ltac:(inst ItGP.is_collection_call_nn).
+Definition sem_contains_model := ltac:(inst ItGP.sem_contains_model).
+Definition all_contained_loop := ltac:(inst ItGP.all_contained_loop).
+Definition iceq_model := ltac:(inst ItGP.iceq_model).
+Definition sem_swap_model := ltac:(inst ItGP.sem_swap_model).
+Definition sem_iceq_model := ltac:(inst ItGP.sem_iceq_model).
+Definition exec_type_if := ltac:(inst ItGP.exec_type_if).
+Definition items_equal_model := ltac:(inst ItGP.items_equal_model).
+Definition iris_loop := ltac:(inst ItGP.iris_loop).
+Definition iris_contains_model := ltac:(inst ItGP.iris_contains_model).
+Definition inner_loop := ltac:(inst ItGP.inner_loop).
+Definition outer_step := ltac:(inst ItGP.outer_step).
+Definition outer_loop := ltac:(inst ItGP.outer_loop).
+Definition nlv_equals_model := ltac:(inst ItGP.nlv_equals_model).
+Definition equals_method_pw := ltac:(inst ItGP.equals_method_pw).
+Definition in_model_fns := ltac:(inst ItGP.in_model_fns).
+Definition fn_swap := ltac:(inst ItGP.fn_swap).
+Definition fn_items_equal := ltac:(inst ItGP.fn_items_equal).
+Definition fn_ic_contains := ltac:(inst ItGP.fn_ic_contains).
+Definition fn_ic_equals := ltac:(inst ItGP.fn_ic_equals).
+Definition fn_iris_contains := ltac:(inst ItGP.fn_iris_contains).
+Definition fn_nlv_equals := ltac:(inst ItGP.fn_nlv_equals).
+Definition swap_tie := ltac:(inst ItGP.swap_tie).
+Definition contains_tie := ltac:(inst ItGP.contains_tie).
+Definition iceq_tie := ltac:(inst ItGP.iceq_tie).
+Definition items_equal_tie_pw := ltac:(inst ItGP.items_equal_tie_pw).
+Definition items_equal_tie := ltac:(inst ItGP.items_equal_tie).
+Definition iris_contains_tie := ltac:(inst ItGP.iris_contains_tie).
+Definition nlv_equals_tie := ltac:(inst ItGP.nlv_equals_tie).
+Definition items_equal_t_tie := ltac:(inst ItGP.items_equal_t_tie).
